@@ -202,3 +202,32 @@ def special_corners(lbv, ubv):
         x[j] = ubv[j]
         out.append(x)
     return np.array(out)
+
+
+# ------------------------------------------------------------------ estimator with a prescribed A
+
+def spectra_for_A(A):
+    """filters (m, m+2), sources (n, m+2) on the scalar-step domain 1.0 whose trapezoid capture
+    matrix is exactly A (unit vectors on interior samples, where the trapezoid weight is 1)."""
+    A = np.atleast_2d(np.asarray(A, dtype=float))
+    m, n = A.shape
+    filters = np.zeros((m, m + 2))
+    filters[np.arange(m), np.arange(m) + 1] = 1.0
+    sources = np.zeros((n, m + 2))
+    sources[:, 1:m + 1] = A.T
+    return filters, sources
+
+
+def make_estimator(dreye, s, w=None, with_bounds=True):
+    """ReceptorEstimator whose registered system has capture matrix exactly s['A']."""
+    filters, sources = spectra_for_A(s["A"])
+    kw = {}
+    if s.get("K") is not None:
+        kw["K"] = s["K"]
+    if s.get("baseline") is not None:
+        kw["baseline"] = s["baseline"]
+    if w is not None:
+        kw["w"] = w
+    est = dreye.ReceptorEstimator(filters, domain=1.0, **kw)
+    est.register_system(sources, lb=s["lb"] if with_bounds else None, ub=s["ub"] if with_bounds else None)
+    return est
